@@ -4,7 +4,7 @@ the feature-subset builds of C17. Each stage observes real executions of the lib
 /repo's current working tree and writes a JSON summary {coverage, violations, inconclusive} that
 `scv check --extra` merges into the verdict and the evidence file.
 
-usage: stages.py <c01|c16|c17> <quick|thorough> <out.json>
+usage: stages.py <c01|c02|c16|c17> <quick|thorough> <out.json>
 """
 import json, os, re, subprocess, sys, shutil, time, itertools, hashlib
 
@@ -313,6 +313,142 @@ def c17_stage(tier):
     return cov, viol, inc
 
 
+# ----------------------------------------------------------------------------------------------
+# C02: instruction-count backstop. The step counter of the hook commit sees only the loops that carry
+# a tick(); a loop added later carries none. Here every call of a corpus built from magnitude bombs,
+# every construct repeated up to 256 characters and large random trees runs under cachegrind
+# (instruction counting only), and the instructions executed per call must stay below a fixed linear
+# function of the input length. Deterministic (no clock involved); the bound sits about 16x above
+# the most expensive call of the pinned tree and three orders of magnitude below what the CPU-time
+# watchdog of the workers can see.
+IBUDGET_A, IBUDGET_B = 10_000_000, 1_000_000
+
+
+def ibudget(n_chars):
+    return IBUDGET_A + IBUDGET_B * n_chars
+
+
+def c02_stage(tier):
+    import concurrent.futures, math, collections
+    exe = f"{BUILD}/main/release/scv_san"
+    cov = {"tool": "valgrind --tool=cachegrind --cache-sim=no (instruction counts)", "budget": f"{IBUDGET_A} + {IBUDGET_B}*chars instructions per call"}
+    viol, inc = [], []
+    wd = f"{TMP}/c02-work-{os.getpid()}"
+    os.makedirs(wd, exist_ok=True)
+    c = f"{wd}/corpus.jsonl"
+    n_random, n_bombs = (300, 10**9) if tier == "quick" else (3000, 10**9)
+    rc, out = run([f"{BUILD}/main/release/scv", "gen-work-corpus", str(n_random), c, str(SEED), str(n_bombs)])
+    if rc != 0:
+        return cov, [], ["cannot generate the work corpus: " + out[-300:]]
+    lines = [l for l in open(c, encoding="utf-8").read().split("\n") if l]  # not splitlines(): U+2028, U+0085 occur inside expressions
+    cases = [json.loads(l) for l in lines]
+    if tier == "quick":
+        # the longest member of every family only; the 64- and 128-character members belong to the growth table of the thorough tier
+        keep = [i for i, j in enumerate(cases) if j["kind"] in ("bomb", "random") or j["extra"] == "256"]
+    else:
+        keep = list(range(len(cases)))
+    nchars = {i: len(cases[i]["exprs"][0]) for i in keep}
+
+    def irefs(idxs, reps, tag):
+        path = f"{wd}/{tag}.jsonl"
+        with open(path, "w") as f:
+            for i in idxs:
+                f.write(lines[i] + "\n")
+        rc, out = run(["valgrind", "--tool=cachegrind", "--cache-sim=no", "--cachegrind-out-file=/dev/null", exe, "work", path, str(reps)], timeout=900)
+        os.remove(path)
+        m = re.search(r"I\s+refs:\s+([\d,]+)", out)
+        if rc != 0 or not m or "SAN-DONE mode=work" not in out:
+            return None, out[-400:]
+        return int(m.group(1).replace(",", "")), ""
+
+    base, why = irefs([keep[0]], 0, "base")
+    if base is None:
+        shutil.rmtree(wd, ignore_errors=True)
+        return cov, [], ["cachegrind baseline run failed: " + why.replace("\n", " | ")]
+    # batches of calls of similar length; a batch whose total stays below the smallest budget in it
+    # needs no further look, any other batch is measured call by call
+    keep.sort(key=lambda i: nchars[i])
+    singles = [i for i in keep if tier == "thorough" and cases[i]["kind"] not in ("bomb", "random")]
+    rest = [i for i in keep if i not in set(singles)]
+    batches = [rest[k:k + 200] for k in range(0, len(rest), 200)]
+    per_call = {}
+    measured = 0
+    worst = (0.0, None)
+
+    def do_batch(bi):
+        # bisection: a group whose total exceeds the smallest budget in it is split until the call is alone
+        outl = []
+        todo = [(batches[bi], f"b{bi}")]
+        while todo:
+            b, tag = todo.pop()
+            tot, why = irefs(b, 1, tag)
+            if tot is None:
+                outl.append(("inc", f"batch {tag}: {why}"))
+                continue
+            cost = max(tot - base, 0)
+            if len(b) == 1:
+                outl.append(("one", b[0], cost))
+            elif cost <= min(ibudget(nchars[i]) for i in b):
+                outl.append(("ok", b, cost))
+            else:
+                h = len(b) // 2
+                todo.append((b[:h], tag + "l"))
+                todo.append((b[h:], tag + "r"))
+        return outl
+
+    def do_single(i):
+        t, why = irefs([i], 2, f"s{i}")
+        return [("inc", f"call {i}: {why}")] if t is None else [("one", i, max(t - base, 0) // 2)]
+
+    with concurrent.futures.ThreadPoolExecutor(max_workers=16) as ex:
+        results = list(ex.map(do_batch, range(len(batches)))) + list(ex.map(do_single, singles))
+    batch_max = 0
+    for rl in results:
+        for r in rl:
+            if r[0] == "inc":
+                inc.append("instruction count not obtained (" + r[1].replace("\n", " | ")[-300:] + ")")
+            elif r[0] == "ok":
+                measured += len(r[1])
+                batch_max = max(batch_max, r[2])
+            else:
+                _, i, cost = r
+                measured += 1
+                per_call[i] = cost
+                ratio = cost / ibudget(nchars[i])
+                if ratio > worst[0]:
+                    worst = (ratio, i)
+                if cost > ibudget(nchars[i]):
+                    j = cases[i]
+                    fam = j["kind"]
+                    viol.append({"property": "C02", "config": "cachegrind", "class": "instruction-budget", "sig": f"C02|{j['evaluator']}|instruction-budget|{fam}",
+                                 "detail": f"{cost} instructions for one call of {nchars[i]} characters, budget {ibudget(nchars[i])} ({IBUDGET_A}+{IBUDGET_B}*chars)", "seed": SEED, "case": j})
+    cov["counters"] = {"instruction_measurements": measured}
+    cov["instruction_calls_measured"] = measured
+    cov["instruction_calls_measured_individually"] = len(per_call)
+    cov["instruction_batches"] = len(batches)
+    cov["largest_batch_total_instructions"] = batch_max
+    if worst[1] is not None:
+        j = cases[worst[1]]
+        cov["most_expensive_call_relative_to_budget"] = {"ratio": round(worst[0], 4), "instructions": per_call[worst[1]], "chars": nchars[worst[1]], "evaluator": j["evaluator"], "family": j["kind"], "expr": j["exprs"][0][:80]}
+    if tier == "thorough":
+        # growth of the instruction count with the length, per (evaluator, family): reported, not judged
+        fam = collections.defaultdict(dict)
+        for i, cost in per_call.items():
+            j = cases[i]
+            if j["extra"] in ("64", "128", "256"):
+                fam[(j["evaluator"], j["kind"])][int(j["extra"])] = (nchars[i], cost)
+        hist = collections.Counter()
+        for k, v in fam.items():
+            if 128 in v and 256 in v and v[128][1] > 0 and v[256][0] > v[128][0]:
+                e = math.log(v[256][1] / v[128][1]) / math.log(v[256][0] / v[128][0])
+                hist[str(round(e * 2) / 2)] += 1
+        cov["growth_exponent_128_to_256_chars_histogram"] = dict(sorted(hist.items()))
+    if measured < 20000:
+        inc.append(f"only {measured} calls measured under cachegrind")
+    shutil.rmtree(wd, ignore_errors=True)
+    return cov, viol, inc
+
+
 def main():
     stage, tier, outp = sys.argv[1], sys.argv[2], sys.argv[3]
     os.makedirs(TMP, exist_ok=True)
@@ -336,6 +472,9 @@ def main():
                     san.append(c); viol += v; inc += i
         elif stage == "c17":
             extra_cov, viol, inc = c17_stage(tier)
+        elif stage == "c02":
+            c, viol, inc = c02_stage(tier)
+            san.append(c)
     except Exception as ex:  # a stage that cannot run is inconclusive, never a verdict
         inc.append(f"stage {stage} failed to run: {ex!r}")
     cov = dict(extra_cov)
